@@ -59,6 +59,10 @@ def make_hook(world_ref, wname, hname, outcome, log):
                            if k in ('pid', 'signum')}})
         if outcome == 'raise':
             raise HookRaised("%s of %s raises" % (hname, wname))
+        if outcome == 'second-false':
+            n = len([e for e in log if e["watcher"] == wname and
+                     e["hook"] == hname])
+            return n <= 1
         if outcome == 'third-false':
             n = len([e for e in log if e["watcher"] == wname and
                      e["hook"] == hname])
